@@ -19,6 +19,16 @@ Request: `look <cap> <state> <now> <views> <defRaw> <defNorm> <fbRaw> <fbNorm> <
   impl    `m:<hash>|d:<hash>|none` then `err | empty | panic | ok <hash> <chain 0/1> <key 0/1>`
 Answer: the model's two results | the executable specification's verdict on the
 IMPLEMENTATION's answer | branch tag.
+
+Request: `conc <cap> <state>+<state>+… <defRaw> <defNorm> <fbRaw> <fbNorm> <sniRaw> <sniNorm> <conn>
+          => <GetCertificate>`
+  a lookup that ran WHILE the cache was being changed (certificates replaced, removed, added,
+  evicted — each an atomic operation): the states are those the cache can have had between the
+  start and the return of the lookup (snapshots of the two maps taken by the only writer).
+  The model's answer is `*` (which state the lookup saw is not determined); the specification
+  (`judgeConc`) accepts an error, or a complete certificate that was cached in one of the
+  states and covers the name (or lists the local IP / default name for no SNI, or the fallback
+  name); an error is rejected when one key the lookup tries is listed in EVERY state.
 -/
 namespace CM.Drv.C03
 open CM.Wire CM.Cache CM.Lookup
@@ -133,8 +143,55 @@ def judge (e : Env) (cfg : Cfg) (s : State) (h : Hello) (r : Req) : List String 
         | none => "ok"
   | _ => "bad:unparsable-answer"
 
+/-- the executable specification for a lookup that ran while the cache passed through the
+states `ss` (C03_total and C03_sound, read over "some state the lookup can have seen"; the
+preferences among several candidates are not judged here: a lookup tries its keys one after
+the other and may see a different state for each) -/
+def judgeConc (cfg : Cfg) (ss : List State) (h : Hello) : List String → String
+  | ["err"] =>
+    let keys := if h.sni = [] then h.conn.toList else h.sni :: candidates h.sni
+    if keys.any (fun k => ss.all (fun s => !(listing s k).isEmpty)) then "bad:error-despite-covering-certificate" else "ok"
+  | ["empty"] => "bad:empty-certificate-nil-error"
+  | ["panic"] => "bad:panic"
+  | ["ok", hash, chain, key] =>
+    if chain ≠ "1" || key ≠ "1" then "bad:incomplete-certificate" else
+    match ss.findSome? (fun s => get? hash s.cache) with
+    | none => "bad:certificate-not-cached-at-any-moment-of-the-lookup"
+    | some c =>
+      let lists (o : Option Name) : Bool := match o with
+        | some n => c.names.contains n
+        | none => false
+      let just := (h.sni ≠ [] && coversB h.sni c.names) || (h.sni = [] && lists h.conn) ||
+        (h.sni = [] && lists cfg.defaultName) || lists cfg.fallbackName
+      if just then "ok" else "bad:certificate-does-not-cover-name"
+  | _ => "bad:unparsable-answer"
+
 def handle (args impl : List String) : String :=
   match args with
+  | ["conc", cap, sts, defRaw, defNorm, fbRaw, fbNorm, sniRaw, sniNorm, conn] =>
+    match cap.toNat? with
+    | none => bad
+    | some cap =>
+      let parsed := (sts.splitOn "+").map (parseState cap)
+      if !parsed.all Option.isSome then bad else
+      let ss := parsed.filterMap id
+      let optName (rawTok normTok : String) : Option (Option Name) :=
+        if rawTok = "~" then some none else (normOf rawTok normTok).map some
+      match optName defRaw defNorm, optName fbRaw fbNorm, normOf sniRaw sniNorm with
+      | some d, some f, some sni =>
+        let cfg : Cfg := { defaultName := d, fallbackName := f }
+        let h : Hello := { sni := sni, conn := if conn = "~" then none else decStr conn }
+        let spec :=
+          if ss.any (fun s => (invCheck s).isSome) then "bad:cache-invariant-broken"
+          else match impl with
+            | _ :: _ => judgeConc cfg ss h impl
+            | [] => "-"
+        let tag := "C" ++ (if ss.length > 1 then "w" else "s") ++ (if h.sni = [] then "0" else "n") ++
+          (match impl with
+           | a :: _ => a
+           | [] => "")
+        reply "*" spec tag
+      | _, _, _ => reply "normalisation-differs" "-" "!"
   | ["look", cap, st, now, views, defRaw, defNorm, fbRaw, fbNorm, sniRaw, sniNorm, conn, idna, stored] =>
     match cap.toNat?, now.toInt?, parseViews views, parseStored stored with
     | some cap, some now, some views, some stored =>
